@@ -41,7 +41,7 @@ inductive Rope where
   | slice (parent : Rope) (offset length : Nat)
   | concat (left right : Rope) (total : Nat)
   | tiled (unit : Rope) (count : Nat)
-  deriving Inhabited, Repr
+  deriving Inhabited, Repr, DecidableEq
 
 namespace Rope
 
@@ -239,9 +239,25 @@ def WF : Rope → Prop
   | concat l r t => WF l ∧ WF r ∧ t = l.len + r.len ∧ t < USIZE_LIMIT
   | tiled u c => WF u ∧ u.len * c < USIZE_LIMIT
 
+instance decWF : (r : Rope) → Decidable r.WF
+  | owned bs => inferInstanceAs (Decidable (bs.length < USIZE_LIMIT))
+  | zeroed n => inferInstanceAs (Decidable (n < USIZE_LIMIT))
+  | slice p off l =>
+    have := decWF p
+    inferInstanceAs (Decidable (WF p ∧ off + l ≤ p.len))
+  | concat l r t =>
+    have := decWF l
+    have := decWF r
+    inferInstanceAs (Decidable (WF l ∧ WF r ∧ t = l.len + r.len ∧ t < USIZE_LIMIT))
+  | tiled u c =>
+    have := decWF u
+    inferInstanceAs (Decidable (WF u ∧ u.len * c < USIZE_LIMIT))
+
 /-- A rope as stored in the executor heap: well-formed and within the size limit that
     `allocate_binary_data` enforces. -/
 def Stored (r : Rope) : Prop := r.WF ∧ r.len ≤ MAX_BINARY
+
+instance (r : Rope) : Decidable r.Stored := inferInstanceAs (Decidable (r.WF ∧ r.len ≤ MAX_BINARY))
 
 end Rope
 
